@@ -138,7 +138,13 @@ def _rhs(name, t):
         'blksum': np.stack([b1, b2, b1 + b2], 1), 'blkz': np.stack([b1, z], 1), 'col': b1.reshape(N, 1),
         # widely different magnitudes: a column of order 1e-9 next to one of order 1, and a tiny rhs in its span
         'blkscale': np.stack([b1, 1e-9 * b2], 1), 'tiny': 3e-9 * b2, 'tinyb1': 2e-10 * b1,
+        # a block whose FIRST column lies in the span of b1, b2 (known after 'blk12') and whose second column is new
+        'b3': _b3(b1, b2), 'blkmix': np.stack([0.7 * b1 - 1.3 * b2, _b3(b1, b2)], 1),
     }[name].copy()
+
+
+def _b3(b1, b2):
+    return np.cross(b1, b2) * 0.37 + 0.21 * b1
 
 
 RHS_FULL = ['b1', 'b2', '2b1', 'b1+b2', 'zero', 'bc', 'ib1', 'blk12', 'blkdep', 'blksum', 'blkz', 'col']
@@ -483,6 +489,13 @@ def generate(tier, seed):
         for op1 in solve_ops(RHS_SCALE):
             yield {'mat': nm, 'table': t, 'inner': 'ref', 'flags': 'none', 'prefix': [op1],
                    'tails': [['m']] if tier == 'quick' else [['m'], ['m', 'm']], 'rhs_alphabet': RHS_SCALE}
+    # blocks that mix a column the database already spans (first) with a new one (second), followed by one more solve
+    yield {'__level__': 'depth3/mixed-blocks'}
+    mix_alpha = ['blkmix', 'b3', 'b1+b2']
+    for nm in (names if tier != 'quick' else sorted(set(sub + mag_mats))):
+        for tr in 'NTH':
+            yield {'mat': nm, 'table': t, 'inner': 'ref', 'flags': 'none', 'prefix': [['S', 'blk12', tr]],
+                   'tails': [['S', 'S']], 'rhs_alphabet': mix_alpha}
     yield {'__level__': 'two-live-wrappers'}
     pairs = [('r111111', 'r110110'), ('c111111', 'c101101'), ('rs111', 'r111111'), ('ch111', 'c111111'),
              ('r100100', 'r111111'), ('cs111', 'cs011')]
